@@ -470,11 +470,13 @@ def _entity_cls():
             if not r:
                 return None
             if r.get("y") is not None:
-                return self._process(r)
+                return self._process(r, pid)
             return self._emit(r)
 
-        def _process(self, r):
+        def _process(self, r, pid):
             yield r["y"]
+            # the resumption is an executed event too (it moves the partition clock)
+            self._plog.append(("r", self._clock.now.nanoseconds, pid))
             return self._emit(r)
 
         def _emit(self, r):
@@ -514,9 +516,6 @@ def _build_entities(case, sequential: bool):
         for n in names:
             ents[n] = cls(n, p, case["react"], part_of, plogs[p], seq_latency)
     # peers: exactly the entities this one ever sends to (so validation sees only real references)
-    sender_of = {}
-    for t, e, typ, pid in case["init"]:
-        sender_of[pid] = None
     target_of = {pid: e for _t, e, _typ, pid in case["init"]}
     for r in case["react"].values():
         for _d, tgt, _typ, cpid in r["out"]:
@@ -737,6 +736,7 @@ def run_parallel(case, perturb_seed=None):
     lg.addHandler(tt)
     cap = _expected_windows(case) * 2 + 50 if case["links"] else 10**9
     pert = Perturber(perturb_seed) if perturb_seed is not None else None
+    watch = _BarrierWatch(plogs, cap)
     try:
         with warnings.catch_warnings():
             warnings.simplefilter("ignore")
@@ -750,7 +750,7 @@ def run_parallel(case, perturb_seed=None):
             )
         for e, ev in _init_events(case, ents):
             ps.schedule(ev, partition=f"P{part_of[e]}")
-        with EngineProbe(instant_cap=20000, total_cap=200000) as probe, _BarrierWatch(plogs, cap) as watch:
+        with EngineProbe(instant_cap=20000, total_cap=200000) as probe, watch:
             try:
                 if pert is not None:
                     with pert:
@@ -759,7 +759,6 @@ def run_parallel(case, perturb_seed=None):
                     out["status"] = probe.run(None, ps.run)
             except WindowCap:
                 out["status"] = "window-cap"
-            out["barriers"] = watch.barriers
             out["past_emissions"] = len(probe.past_emissions)
     except Exception as exc:  # noqa: BLE001
         where = _lib_frame(exc)
@@ -773,6 +772,7 @@ def run_parallel(case, perturb_seed=None):
         lg.removeHandler(tt)
     if pert is not None:
         out["lines"], out["yields"] = pert.lines, pert.yields
+    out["barriers"] = watch.barriers  # also when the run raised: loss attribution needs them
     out["logs"] = {n: e.log for n, e in ents.items()}
     out["plogs"] = plogs
     out["tt"] = tt.records
@@ -814,13 +814,6 @@ def canonical(logs, end_ns):
 
 def _link_kind(case):
     return "latency-distribution-link" if any(l[3] is not None for l in case["links"]) else "plain-link"
-
-
-def _window_shape(case):
-    if case["window"] is None:
-        return "default-window"
-    minlat = min(l[2] for l in case["links"])
-    return "window-equals-min-latency" if case["window"] == minlat else "window-below-min-latency"
 
 
 def check_parallel_against(case, par, seq, res: Result, tag: str):
@@ -874,11 +867,9 @@ def check_parallel_against(case, par, seq, res: Result, tag: str):
         for now, et, typ, pid in _restrict(log, end_ns):
             seq_deliv[pid] = (now, typ, n)
     par_count = Counter()
-    par_time = {}
     for n, log in par["logs"].items():
         for now, et, typ, pid in log:
             par_count[pid] += 1
-            par_time[pid] = (now, typ, n)
     # where each cross send sits in its partition log
     send_pos = {}
     for p, pl in enumerate(par["plogs"]):
@@ -904,7 +895,7 @@ def check_parallel_against(case, par, seq, res: Result, tag: str):
         text = f"pid {pid} sent at {stime} from P{sp} to P{dst}, due {arrival}, exchanged at barrier {b_ns} (window began {prev_b})"
         overshoot = None
         for k, rec in enumerate(par["plogs"][dst]):
-            if rec[0] == "d" and rec[1] > arrival:
+            if rec[0] in ("d", "r") and rec[1] > arrival:
                 wb = window_barrier(dst, k)
                 if wb is not None and rec[1] > wb:
                     overshoot = (rec[1], wb)
@@ -1312,13 +1303,13 @@ FAMILIES = {
 BUDGET = {
     "quick": {"linked": 160, "boundary": 120, "idle": 24, "far_epoch": 40, "latency_link": 40, "chain": 60, "independent": 60, "config": 30},
     "thorough": {
-        "linked": 6000,
-        "boundary": 5000,
-        "idle": 400,
-        "far_epoch": 1200,
-        "latency_link": 1200,
-        "chain": 2000,
-        "independent": 1500,
-        "config": 200,
+        "linked": 2500,
+        "boundary": 2000,
+        "idle": 150,
+        "far_epoch": 500,
+        "latency_link": 500,
+        "chain": 800,
+        "independent": 600,
+        "config": 100,
     },
 }
